@@ -123,7 +123,8 @@ class Monitor(Observer):
                           {"spec": spec, "upto": i})
         if not step["pending"] and ctx.rng.random() < max(self.p, 0.5):
             self.frame_oracle(bt, spec, root, step, i)
-        if ctx.rng.random() > self.p:
+        force = (not step["pending"]) and bool(root.stale) and any(m.now != root.now for m in root.members)
+        if ctx.rng.random() > self.p and not force:
             return
         # (a) idempotence of update on a deep copy
         try:
@@ -151,8 +152,14 @@ class Monitor(Observer):
         # (b) read freshness and (d) series end at now
         members = list(root.members)
         idx = ctx.rng.randrange(len(members))
+        # nodes whose own clock lags the root's (flat securities the engine no longer marks): half of the reads on a stale tree
+        lag = [j for j, m in enumerate(members) if m.now != root.now]
+        if lag and root.stale and (force or ctx.rng.random() < 0.5):
+            idx = ctx.rng.choice(lag)
+            ctx.count("freshness-twins:read-on-a-lagging-node")
         is_sec = isinstance(members[idx], bt.core.SecurityBase)
         attr = ctx.rng.choice((SERIES_SEC + SCALAR_SEC) if is_sec else (SERIES_STRAT + SCALAR_STRAT))
+        was_stale = bool(root.stale)
         try:
             c1 = copy.deepcopy(root)
             v1 = getattr(list(c1.members)[idx], attr)
@@ -163,6 +170,17 @@ class Monitor(Observer):
             ctx.count("twin-read-raised:" + E.classify_exc(e))
             return
         ctx.count("freshness-twins:" + attr)
+        # a read that refreshes a stale tree leaves exactly the tree an explicit update leaves (same clock, same rows everywhere)
+        if was_stale and not c1.stale:
+            try:
+                cmw = E.cmp_world(E.snap_world(bt, c1), E.snap_world(bt, c2))
+                ctx.count("freshness-twins:whole-tree-compared")
+                if cmw.diffs:
+                    ctx.violation("C08/read-is-not-an-update:" + attr, "after op %d %s: reading %s.%s on the stale tree left a tree that differs from an explicit update: %s"
+                                  % (i, step["op"]["op"], members[idx].full_name, attr, cmw.diffs[0]), {"spec": spec, "upto": i})
+                    return
+            except Exception as e:  # noqa
+                ctx.count("twin-compare-raised:" + E.classify_exc(e))
         if canon(v1) != canon(v2):
             ctx.violation("C08/stale-read:" + attr, "after op %d %s: %s.%s read %r but after an explicit update %r"
                           % (i, step["op"]["op"], members[idx].full_name, attr, _short(v1), _short(v2)), {"spec": spec, "upto": i})
